@@ -58,6 +58,19 @@ pub fn notable_values(key: &str, width: usize) -> Vec<u64> {
             v.push(*e);
         }
     }
+    if key == "longitude" || key == "latitude" {
+        // the 'not available' codes of the whole coordinate family, shifted by up to two places
+        // either way, truncated to this width, and negated: what a packed or swapped constant
+        // of two adjacent coordinate fields leaves in each of them
+        for base in [108_600_000u64, 54_600_000, 108_600, 54_600] {
+            for sh in 0..=2u32 {
+                for x in [base << sh, base >> sh] {
+                    v.push(x & max);
+                    v.push(x.wrapping_neg() & max);
+                }
+            }
+        }
+    }
     if width == 30 && (key.contains("mmsi") || key.contains("station")) {
         v.extend(gen::SPECIAL_MMSI.iter().map(|m| *m as u64));
     }
